@@ -91,8 +91,10 @@ def tol_for(mode, cutoff, eps, method=None):
     return t
 
 
-def compare(rec, entry, clause, pre, result, tol, detail, sig, mechsuffix="value"):
-    """result: scalar, Tensor or network (value over the same outer labels)"""
+def compare(rec, entry, clause, pre, result, tol, detail, sig, mechsuffix="value", strict=False):
+    """result: scalar, Tensor or network (value over the same outer labels);
+    strict: nothing at all may have been truncated (no cap, cutoff exactly 0): only
+    rounding relative to the absolute network plus ``tol`` relative to the value"""
     V, S, eps, out = pre
     if hasattr(result, "tensor_map") or (hasattr(result, "inds") and hasattr(result, "data")):
         if set(map(str, result.outer_inds() if hasattr(result, "tensor_map") else result.inds)) != set(out):
@@ -127,7 +129,7 @@ def compare(rec, entry, clause, pre, result, tol, detail, sig, mechsuffix="value
         return
     ok, err, bound = close(got, V, max(S, s2), eps, 1e5, rel=tol)
     # compressions are relative to the value of the *absolute* network only loosely: allow tol*S
-    if ok is False and err <= tol * max(S, s2):
+    if ok is False and not strict and err <= tol * max(S, s2):
         ok = True
     rec.check(entry, clause, ok, mech=f"{entry}:{mechsuffix}", detail=dict(detail, err=err, bound=bound, vmax=vmax),
               sig=sig)
@@ -330,7 +332,8 @@ def install(rec):
                 tol = tol_for(str(mode), cutoff, s["p"][2], k.get("compress_opts", {}).get("method") if isinstance(
                     k.get("compress_opts"), dict) else None)
                 tol = max(tol, 1e-6)
-                compare(rec, "scheme", "exact", s["p"], res, tol, detail, sig, mechsuffix=f"{entry}:untruncated_value")
+                compare(rec, "scheme", "exact", s["p"], res, tol, detail, sig, mechsuffix=f"{entry}:untruncated_value",
+                        strict=(max_bond is None and cutoff == 0.0 and s["p"][2] < 1e-10))
             else:
                 rec.count("scheme", "exact", "truncating")
         return attach.monitored(rec, entry, pre, post, fam="gen")
@@ -501,6 +504,18 @@ def wl_3d(rng, rec, tier):
 def wl_generic(rng, rec, tier):
     import quimb.tensor as qtn
     from . import c04
+    if rng.random() < 0.25:
+        # no cap at all (max_bond=None, cutoff 0) on a lattice whose exact
+        # intermediate bonds grow well beyond the square of the largest bond
+        Lx, Ly = (5, 5) if rng.random() < 0.5 else (int(rng.integers(3, 6)), int(rng.integers(3, 6)))
+        D = 3 if (Lx, Ly) == (5, 5) else int(rng.integers(2, 4))
+        tn = qtn.TN2D_rand(Lx, Ly, D, seed=int(rng.integers(1 << 30)), dtype=gen.choice(rng, ["float64", "complex128"]))
+        opt = gen.choice(rng, ["greedy-compressed", "greedy", "auto"])
+        kw = {"max_bond": None, "cutoff": 0.0}
+        if rng.random() < 0.3:
+            kw["equalize_norms"] = gen.choice(rng, [True, 1.0])
+        gen.attempt(tn.contract_compressed, opt, **kw)
+        return {"graph": "lattice", "Lx": Lx, "Ly": Ly, "D": D, "what": "compressed_uncapped", "opt": opt}
     tn, desc = c04.rand_network(rng, hyper=False)
     if tn.num_tensors < 2:
         return desc
